@@ -2052,7 +2052,10 @@ func (r *Runner) transferCapture(capnum, uncapnum, start, end int) {
 		end = start
 		start = end2
 	} else if end <= start2 {
-		start = start2
+		// the cancelled capture lies to the right (right-to-left matching):
+		// the interval between the two is [end, start2]
+		start = end
+		end = start2
 	} else {
 		if end > end2 {
 			end = end2
